@@ -281,6 +281,9 @@ func (s *simDeps) Run(logger *log.Scope, quiet bool, cmd constants.IptablesCmd, 
 	}
 	switch cmd {
 	case constants.IPTablesSave:
+		if s.failIO {
+			return &bytes.Buffer{}, fmt.Errorf("iptables-save: Permission denied (you must be root)")
+		}
 		return bytes.NewBufferString(f.save()), nil
 	case constants.IPTablesRestore:
 		s.restores++
